@@ -666,6 +666,75 @@ impl<E: Elem> World<E> {
     }
 }
 
+impl<E: Elem> World<E> {
+    /// `adapt r fam axis k`: vector k through one of the four view families, consumed through
+    /// iterator ADAPTORS (an iterator may override nth / nth_back / fold-based methods): a fresh
+    /// iterator per adaptor; oracle = the same adaptors on the reference vector
+    pub fn adapt(&mut self, out: &mut Out, r: usize, fam: &str, axis: &str, k: usize) {
+        let op = format!("adapt {r} {fam} {axis} {k}");
+        out.announce(&op);
+        let rows = axis == "rows";
+        let (_, rf) = self.refs[r].clone().unwrap();
+        let extent = if rows { rf.nrows } else { rf.ncols };
+        let want_vec: Option<Vec<String>> = if k < extent {
+            Some(if rows { if rf.ncols == 0 { Vec::new() } else { rf.rows[k].clone() } } else { (0..rf.nrows).map(|i| rf.rows[i][k].clone()).collect() })
+        } else { None };
+        // one adaptor application on a fresh iterator of the chosen family; `None` = no such vector
+        enum Got { NoVector, Err(matreex::Error), Val(String) }
+        let mut run = |which: &str| -> Option<Got> {
+            let m = self.regs[r].as_mut().unwrap();
+            macro_rules! apply {
+                ($it:expr) => {{
+                    let it = $it;
+                    match which {
+                        "n1" => { let mut it = it; it.nth(1).map(|e| e.show()).unwrap_or("-".into()) }
+                        "nb1" => { let mut it = it; it.nth_back(1).map(|e| e.show()).unwrap_or("-".into()) }
+                        "ss" => format!("[{}]", it.skip(1).step_by(2).map(|e| e.show()).collect::<Vec<_>>().join(",")),
+                        "tr" => format!("[{}]", it.take(2).rev().map(|e| e.show()).collect::<Vec<_>>().join(",")),
+                        "rs" => format!("[{}]", it.rev().skip(1).map(|e| e.show()).collect::<Vec<_>>().join(",")),
+                        "last" => it.last().map(|e| e.show()).unwrap_or("-".into()),
+                        _ => it.count().to_string(),
+                    }
+                }};
+            }
+            catch(|| match (fam, rows) {
+                ("views", true) => match m.iter_rows().nth(k) { None => Got::NoVector, Some(v) => Got::Val(apply!(v)) },
+                ("views", false) => match m.iter_cols().nth(k) { None => Got::NoVector, Some(v) => Got::Val(apply!(v)) },
+                ("viewsmut", true) => match m.iter_rows_mut().nth(k) { None => Got::NoVector, Some(v) => Got::Val(apply!(v)) },
+                ("viewsmut", false) => match m.iter_cols_mut().nth(k) { None => Got::NoVector, Some(v) => Got::Val(apply!(v)) },
+                ("nth", true) => match m.iter_nth_row(k) { Err(e) => Got::Err(e), Ok(v) => Got::Val(apply!(v)) },
+                ("nth", false) => match m.iter_nth_col(k) { Err(e) => Got::Err(e), Ok(v) => Got::Val(apply!(v)) },
+                ("nthmut", true) => match m.iter_nth_row_mut(k) { Err(e) => Got::Err(e), Ok(v) => Got::Val(apply!(v)) },
+                _ => match m.iter_nth_col_mut(k) { Err(e) => Got::Err(e), Ok(v) => Got::Val(apply!(v)) },
+            })
+        };
+        let keys = ["n1", "nb1", "ss", "tr", "rs", "last", "count"];
+        let mut parts: Vec<String> = Vec::new();
+        let mut head: Option<String> = None;
+        for key in keys {
+            match run(key) {
+                None => { out.oracle_fail(&format!("{op}: adaptor {key} panicked")); head = Some("panic".into()); break; }
+                Some(Got::NoVector) => { head = Some("none".into()); break; }
+                Some(Got::Err(e)) => { head = Some(format!("err {}", err_name(e))); break; }
+                Some(Got::Val(v)) => parts.push(format!("{key}={v}")),
+            }
+        }
+        let obs = head.unwrap_or_else(|| format!("ok {}", parts.join(" ")));
+        // oracle: the same adaptors on the reference vector (std's slice iterator is the semantics)
+        let want = match &want_vec {
+            None => if fam.starts_with("nth") { "err IndexOutOfBounds".to_string() } else { "none".to_string() },
+            Some(v) => {
+                let o = |x: Option<&String>| x.cloned().unwrap_or("-".into());
+                let l = |x: Vec<&String>| format!("[{}]", x.into_iter().cloned().collect::<Vec<_>>().join(","));
+                format!("ok n1={} nb1={} ss={} tr={} rs={} last={} count={}", o(v.iter().nth(1)), o(v.iter().nth_back(1)), l(v.iter().skip(1).step_by(2).collect()), l(v.iter().take(2).rev().collect()), l(v.iter().rev().skip(1).collect()), o(v.iter().last()), v.iter().count())
+            }
+        };
+        if obs != want { out.oracle_fail(&format!("{op}: expected `{want}`, implementation gave `{obs}`")); }
+        out.count(&format!("adapt:{fam}"));
+        out.observe(&obs);
+    }
+}
+
 impl<E: Elem + Send + Sync> World<E> {
     /// `iter r variant pattern` for element types without identity (zero-sized ones): the same
     /// operation line as the token version; oracle: one item per element, and for the indexed
